@@ -104,6 +104,15 @@ func init() {
 			for _, n := range ns {
 				js = append(js, JobSpec{Set: "proto", Fn: "HarnessC01Bulk", Params: p("n", fmt.Sprint(n))})
 			}
+			// long values around the buffer sizes a reader may use (4096, 65536): mixed arrays with line-type
+			// elements before and after a long bulk string, every value re-checked after the parser has read on
+			bigs := []int{4090, 5000}
+			if tier == "thorough" {
+				bigs = append(bigs, 100, 4096, 65536, 70000)
+			}
+			for _, n := range bigs {
+				js = append(js, JobSpec{Set: "proto", Fn: "HarnessC02Big", Params: p("n", fmt.Sprint(n))})
+			}
 			for _, h := range []string{"HarnessC01Ctors", "HarnessC01Int", "HarnessC01Float"} {
 				js = append(js, JobSpec{Set: "redis", Fn: h, Params: p("strlen", map[string]string{"quick": "3", "thorough": "4"}[tier])})
 			}
@@ -112,15 +121,16 @@ func init() {
 		RequiredCovers: map[string][]string{
 			"HarnessC01Tree":  {"end", "parsed", "array", "null-bulk", "empty-bulk"},
 			"HarnessC01Bulk":  {"end"},
+			"HarnessC02Big":   {"end"},
 			"HarnessC01Ctors": {"end", "ok", "status", "error", "bulk", "nil", "strings"},
 			"HarnessC01Int":   {"end", "negative", "digits19"},
 			"HarnessC01Float": {"end"},
 		},
 		Bounds: func(tier string) map[string]interface{} {
 			if tier == "thorough" {
-				return map[string]interface{}{"trees": "depth<=2 arity<=2 payload<=2; depth 3 arity 1; arity 3 depth 1; payload<=4 depth 1", "bulk_lengths": "0,1,2,9,10,11,99,100,101,999,1000,1001,9999,10000,65535,65536,100000 (all byte values)", "integer_constructor": "all int64", "constructor_strings": "<=4 bytes", "float_constructor": "fixed witness list (format/parse are strconv's)"}
+				return map[string]interface{}{"trees": "depth<=2 arity<=2 payload<=2; depth 3 arity 1; arity 3 depth 1; payload<=4 depth 1", "bulk_lengths": "0,1,2,9,10,11,99,100,101,999,1000,1001,9999,10000,65535,65536,100000 (all byte values)", "integer_constructor": "all int64", "constructor_strings": "<=4 bytes", "float_constructor": "fixed witness list (format/parse are strconv's)", "long_mixed_streams": "status, [error, bulk of n bytes, integer], status, [bulk], integer with n = 100, 4090, 4096, 5000, 65536, 70000 (first/last byte and all line payloads symbolic)"}
 			}
-			return map[string]interface{}{"trees": "depth<=1 arity<=2 payload<=2; depth 2 arity 1 payload 1; leaves payload<=4", "bulk_lengths": "0,1,2,9,10,11,99,100,101,999,1000,1001,9999,10000,65535,65536 (all byte values)", "integer_constructor": "all int64", "constructor_strings": "<=3 bytes", "float_constructor": "fixed witness list (format/parse are strconv's)"}
+			return map[string]interface{}{"long_mixed_streams": "status, [error, bulk of n bytes, integer], status, [bulk], integer with n = 4090, 5000 (first/last byte and all line payloads symbolic)", "trees": "depth<=1 arity<=2 payload<=2; depth 2 arity 1 payload 1; leaves payload<=4", "bulk_lengths": "0,1,2,9,10,11,99,100,101,999,1000,1001,9999,10000,65535,65536 (all byte values)", "integer_constructor": "all int64", "constructor_strings": "<=3 bytes", "float_constructor": "fixed witness list (format/parse are strconv's)"}
 		},
 		Assumptions: append([]string{
 			"line-type payloads exclude CR and LF (the property's quantifier); bulk payload bytes are unconstrained",
@@ -139,6 +149,13 @@ func init() {
 			add(2, 1, 1, 2, 3)
 			add(1, 1, 2, 2, 0)
 			add(1, 0, 0, 5, 0)
+			bigs := []int{100, 4090, 70000}
+			if tier == "thorough" {
+				bigs = append(bigs, 4096, 5000, 65534, 65535, 65536, 131072)
+			}
+			for _, n := range bigs {
+				js = append(js, JobSpec{Set: "proto", Fn: "HarnessC02Big", Params: p("n", fmt.Sprint(n))})
+			}
 			if tier == "thorough" {
 				add(3, 1, 1, 1, 4)
 				add(2, 1, 2, 2, 4)
@@ -147,14 +164,14 @@ func init() {
 			}
 			return js
 		},
-		RequiredCovers: map[string][]string{"HarnessC02Chunks": {"end", "partial-bulk-read"}},
+		RequiredCovers: map[string][]string{"HarnessC02Chunks": {"end", "partial-bulk-read"}, "HarnessC02Big": {"end"}},
 		Bounds: func(tier string) map[string]interface{} {
 			if tier == "thorough" {
-				return map[string]interface{}{"streams": "3 values (depth1 arity1 payload1); 2 values (arity 2 payload 2 / leaves payload 4); 1 value depth 2", "chunking": "every read returns any 1..min(len(p),remaining) bytes (all partitions)"}
+				return map[string]interface{}{"long_streams": "5 values around a bulk string of 100, 4090, 4096, 5000, 65534, 65535, 65536, 70000, 131072 bytes, delivered greedily with one segment boundary at 9 kinds of offsets (value boundaries +-1, inside the array header, inside the bulk body, after the first byte)", "streams": "3 values (depth1 arity1 payload1); 2 values (arity 2 payload 2 / leaves payload 4); 1 value depth 2", "chunking": "every read returns any 1..min(len(p),remaining) bytes (all partitions)"}
 			}
-			return map[string]interface{}{"streams": "2 values (depth<=1 arity<=1 payload<=2); 1 value (arity<=2 payload<=2); 1 leaf payload<=5", "chunking": "every read returns any 1..min(len(p),remaining) bytes (all partitions)"}
+			return map[string]interface{}{"long_streams": "5 values around a bulk string of 100, 4090, 70000 bytes, delivered greedily with one segment boundary at 9 kinds of offsets (value boundaries +-1, inside the array header, inside the bulk body, after the first byte)", "streams": "2 values (depth<=1 arity<=1 payload<=2); 1 value (arity<=2 payload<=2); 1 leaf payload<=5", "chunking": "every read returns any 1..min(len(p),remaining) bytes (all partitions)"}
 		},
-		Assumptions: commonAssumptions,
+		Assumptions: append([]string{"a parser may read ahead of the value it returns (buffering); what is required is that every value is returned intact, in order, only after its last byte arrived, stays intact while the parser reads on, and that the stream is consumed exactly at its end"}, commonAssumptions...),
 		Outside:     []string{"longer streams, reads that return an error together with data"},
 	})
 }
